@@ -158,7 +158,6 @@ Definition fresh_addr (w : world) (na : Z) : bool :=
 Definition ep_create_pair (w : world) (c a b adder : Z) (fees : option (Z * Z)) (na : Z)
   : result (world * outs) :=
   let r := w_r w in
-  check r_active r else EState;
   check is_owner w c || r_creation r else EPerm;
   check negb (a =? b) else EGuard;
   check tok_valid a else EGuard;
